@@ -154,6 +154,30 @@ def Browser.createWith (purgesFirst : Bool) (c : Cache) (tPurge tReplay : Ms) (t
 def Browser.create (c : Cache) (now : Ms) (types : List String) : Except PyExc CreateOut :=
   Browser.createWith lower possible Gen.Cache.add_listener_purges_first c now (Gen.Cache.add_listener_replay_now now) types
 
+/-- the second purge site, as the listeners registered *before* see it: `async_add_listener(l, question)` sweeps the cache at the one
+instant it read and — only `if expired:`, unlike the periodic purge, which always calls — runs the two notification rounds
+(`async_updates(now, [(r, r) …])`, `async_updates_complete(False)`) before `l` joins the set.  Callbacks are `set.add`/`set.remove`
+actions as in `deliverPurge` (a callback that re-enters `async_add_listener` with a question is outside this model). -/
+def deliverCreationPurgeWith (copied1 copied2 catches : Bool) (order : List Nat → List Nat) (c : Cache) (ls : List Nat)
+    (now : Ms) (react1 react2 : Nat → List ListenerAct) : Except PyExc PurgeDelivery := do
+  let out ← expire (Cache.ops lower) c (Gen.Cache.add_listener_purge_expire_now now)
+  if out.2.isEmpty then
+    pure { cache := out.1, pairs := [], listeners := ls, round1 := [], round2 := [], err := none, notify := false }
+  else
+    let pairs := out.2.map (fun r => (r, some r))
+    let r1 := notifyRoundWith copied1 catches (order ls) react1
+    match r1.err with
+    | some e => pure { cache := out.1, pairs := pairs, listeners := r1.live, round1 := r1.called, round2 := [], err := some e, notify := false }
+    | none =>
+      let r2 := notifyRoundWith copied2 catches (order r1.live) react2
+      pure { cache := out.1, pairs := pairs, listeners := r2.live, round1 := r1.called, round2 := r2.called, err := r2.err, notify := false }
+
+/-- the code as it is -/
+def deliverCreationPurge (order : List Nat → List Nat) (c : Cache) (ls : List Nat) (now : Ms)
+    (react1 react2 : Nat → List ListenerAct) : Except PyExc PurgeDelivery :=
+  deliverCreationPurgeWith lower Gen.Cache.updates_iterates_copy Gen.Cache.complete_iterates_copy Gen.Cache.remove_listener_catches_keyerror
+    order c ls now react1 react2
+
 /-- the periodic purge: `_async_cache_cleanup` reports every purged record as `(record, record)` -/
 def Browser.onPurge (c : Cache) (b : Browser) (now : Ms) : Except PyExc BrowserOut := do
   -- `now` is read once: the cache is swept with the instant the listeners are told (leaves `purge_expire_now`, `purge_updates_now`)
